@@ -73,7 +73,7 @@ Definition col_table (c : qcol) : option (string * string * string) :=
 
 (** goType for a compiler column (PostgreSQL) *)
 Definition go_type_of (st : gsettings) (c : catalog) (col : qcol) : string :=
-  go_type_ov (gs_ovs st) PostgreSQL c (col_table col) (qc_name col) (qc_dt col) (qc_nn col) (qc_arr col) false.
+  pg_go_type_ov_r (gs_rename st) (gs_ovs st) c (col_table col) (qc_name col) (qc_dt col) (qc_nn col) (qc_arr col).
 
 (** a Go struct: name, the table it models (schema, rel; models only), fields (name, type, tag) *)
 Definition gfield := (string * string * string)%type.
